@@ -371,6 +371,13 @@ func (db *DB) commitWorker() {
 			}
 		}
 		if err != nil && failedAt >= 0 {
+			if db.opt.SyncWrites {
+				// Requests before failedAt were applied and are about to be acknowledged
+				// with a nil error: make them durable first, or fail the whole batch.
+				if syncErr := db.wal.Sync(); syncErr != nil {
+					failedAt = 0
+				}
+			}
 			perReqErr := make(map[*request]error, len(batch.requests)-failedAt)
 			for i := failedAt; i < len(batch.requests); i++ {
 				if batch.requests[i] == nil {
